@@ -281,8 +281,11 @@ SetAttributeBadName(e, s) ==
 
 \* renameNode(n, null namespace, nm): elements and attributes keep their identity; an attached Attr is taken
 \* out of its element's map, renamed and put back (replacing an attribute that already has the new name).
+IsNS(n) == \E x \in Names : name[n] = "p:" \o x      \* node produced by an earlier rename into the namespace
+\* (renaming a node that already has a namespace takes other code paths, in place; not modelled: both renames are
+\*  generated for nodes without namespace only - stated limit)
 RenameNode(d, n, nm) ==
-    /\ kind[d] = "doc"
+    /\ kind[d] = "doc" /\ ~IsNS(n)
     /\ LET errs == (IF owner[n] # d THEN {"WRONG_DOCUMENT_ERR"} ELSE {})
                    \cup (IF kind[n] \notin {"elem", "attr"} THEN {"NOT_SUPPORTED_ERR"} ELSE {})
                    \cup (IF nm = BadName THEN {"INVALID_CHARACTER_ERR"} ELSE {})
@@ -303,7 +306,7 @@ RenameNode(d, n, nm) ==
 \* position in the parent / in the owner element's map); the old node stays behind, detached and empty.
 QName(nm) == "p:" \o nm
 RenameNodeNS(d, n, nm) ==
-    /\ kind[d] = "doc"
+    /\ kind[d] = "doc" /\ ~IsNS(n)
     /\ LET errs == (IF owner[n] # d THEN {"WRONG_DOCUMENT_ERR"} ELSE {})
                    \cup (IF kind[n] \notin {"elem", "attr"} THEN {"NOT_SUPPORTED_ERR"} ELSE {})
                    \cup (IF nm = BadName THEN {"INVALID_CHARACTER_ERR", "NAMESPACE_ERR"} ELSE {})
